@@ -10,9 +10,9 @@ EXTRA=${5:-}
 mkdir -p work/dump
 rm -f work/dump/*
 cat > work/spec_dev.json <<EOF
-{"repo":"/repo","harness_dir":"/verif/harness","tier":$TIER,"workers":${VERIF_WORKERS:-12},"no_native":${NO_NATIVE:-true},"harnesses":[{"pkg":"$PKG","func":"$2","max_seconds":$MS $EXTRA}]}
+{"repo":"${REPO:-/repo}","harness_dir":"/verif/harness","tier":$TIER,"workers":${VERIF_WORKERS:-12},"no_native":${NO_NATIVE:-true},"harnesses":[{"pkg":"$PKG","func":"$2","max_seconds":$MS $EXTRA}]}
 EOF
-GOSYM_DUMP=${DUMP:+/verif/work/dump} ./bin/gosym -spec work/spec_dev.json -out work/out_dev.json 2>&1 | tail -${TAIL:-3}
+GOSYM_DUMP=${DUMP:+/verif/work/dump} ${GOSYM:-./bin/gosym} -spec work/spec_dev.json -out work/out_dev.json 2>&1 | tail -${TAIL:-3}
 python3 - <<'EOF'
 import json
 o=json.load(open('/verif/work/out_dev.json'));r=o['results'][0]
